@@ -89,6 +89,7 @@ type Enc struct {
 	errs        []string
 	bounded     bool
 	curState    *State
+	mathInts    bool // mode math: integers are unbounded mathematical integers (no range facts assumed)
 }
 
 type dbgRef struct {
@@ -188,7 +189,7 @@ func (e *Enc) needStr() {
 	I := e.M.smtSort(SI)
 	e.prelude("Str", "(declare-sort Str 0)\n(declare-fun slen (Str) "+I+")\n(declare-fun sat (Str "+I+") "+I+")\n(declare-const str_empty Str)\n"+
 		"(assert (= (slen str_empty) "+e.M.ilit(0)+"))\n"+
-		"(assert (forall ((s Str)) (! "+e.M.ile(e.M.ilit(0), "(slen s)")+" :pattern ((slen s)))))\n"+
+		"(assert (forall ((s Str)) (! (and "+e.M.ile(e.M.ilit(0), "(slen s)")+" "+e.M.ile("(slen s)", e.M.ilit(4611686018427387904))+") :pattern ((slen s)))))\n"+
 		"(assert (forall ((s Str) (i "+I+")) (! (and "+e.M.ile(e.M.ilit(0), "(sat s i)")+" "+e.M.ile("(sat s i)", e.M.ilit(255))+") :pattern ((sat s i)))))\n"+
 		// extensionality: equal length and bytes imply equal strings
 		"(declare-fun sdiff (Str Str) "+I+")\n"+
@@ -288,7 +289,7 @@ func (e *Enc) typeFactsRec(t types.Type, L []string, st *State, fs *[]string) in
 	z := m.ilit(0)
 	switch u := t.Underlying().(type) {
 	case *types.Basic:
-		if u.Info()&types.IsInteger != 0 && m == ModeInt {
+		if u.Info()&types.IsInteger != 0 && m == ModeInt && !e.mathInts {
 			bits, signed := intBits(u)
 			if bits > 0 {
 				lo, hi := new(big.Int), new(big.Int)
